@@ -6,7 +6,6 @@ import (
 	"fmt"
 	"os"
 	"path/filepath"
-	"regexp"
 	"sort"
 	"strings"
 	"sync"
@@ -39,6 +38,7 @@ type c19Item struct {
 }
 
 type c19Shared struct {
+	keys [3][16]byte // a small pool of key VALUES: distinct goroutines legitimately use equal keys
 	sp   *refcodec.Spec
 	msgs []*nas.Message // decoded messages shared read-only by all goroutines
 	gmm  []*refcodec.Msg
@@ -88,16 +88,16 @@ func c19Run(sh *c19Shared, it c19Item) (res uint64) {
 		out, err := m.PlainNasEncode()
 		return h64(out) ^ hs(fmt.Sprint(err))
 	case "cipher1", "cipher2", "cipher3":
-		var key [16]byte
-		copy(key[:], r.Bytes(16))
+		// keys, counts and bearers come from small pools: equal parameter VALUES on
+		// different goroutines are ordinary use (uplink/downlink of one context)
+		key := sh.keys[r.Intn(3)]
 		buf := r.Bytes(r.Range(0, 200))
-		err := security.NASEncrypt(it.kind[6]-'0', key, r.Uint32(), uint8(r.Intn(32)), uint8(r.Intn(2)), buf)
+		err := security.NASEncrypt(it.kind[6]-'0', key, uint32(r.Intn(4)), uint8(r.Intn(2)), uint8(r.Intn(2)), buf)
 		return h64(buf) ^ hs(fmt.Sprint(err))
 	case "mac1", "mac2", "mac3":
-		var key [16]byte
-		copy(key[:], r.Bytes(16))
-		msg := r.Bytes(r.Range(1, 200))
-		mac, err := security.NASMacCalculate(it.kind[3]-'0', key, r.Uint32(), uint8(r.Intn(32)), uint8(r.Intn(2)), msg)
+		key := sh.keys[r.Intn(3)]
+		msg := r.Bytes(r.Range(1, 1600))
+		mac, err := security.NASMacCalculate(it.kind[3]-'0', key, uint32(r.Intn(4)), uint8(r.Intn(2)), uint8(r.Intn(2)), msg)
 		return h64(mac) ^ h64(msg) ^ hs(fmt.Sprint(err))
 	case "accessor":
 		var g nasType.GUTI5G
@@ -125,7 +125,25 @@ func c19Run(sh *c19Shared, it c19Item) (res uint64) {
 		mi.SetLen(11)
 		mi.SetMobileIdentity5GSContents(g.Octet[:])
 		bad, _ := nasConvert.SuciToString([]byte{1, 2}) // warning path
-		return h64(p) ^ hs(gs) ^ hs(su) ^ hs(pe) ^ hs(mi.Get5GGUTI()) ^ hs(bad) ^ hs(fmt.Sprint(err, err2, err3, err4 != nil))
+		acc := h64(p) ^ hs(gs) ^ hs(su) ^ hs(pe) ^ hs(mi.Get5GGUTI()) ^ hs(bad) ^ hs(fmt.Sprint(err, err2, err3, err4 != nil))
+		// every text getter on a private element of every identity kind
+		for _, w := range [][]byte{
+			refconv.SuciWire(mcc, mnc, digits(r, 3), 0, 2, digits(r, 10), nil),
+			refconv.SuciWire(mcc, mnc, digits(r, 1), 1, 2, "", r.Bytes(20)),
+			refconv.NaiWire(r.Bytes(12)),
+			refconv.GutiWire(mcc, mnc, amf, tmsi),
+			refconv.STmsiWire(uint16(amf>>6), uint8(amf), tmsi),
+			refconv.PeiWire(digits(r, 15), false),
+			refconv.PeiWire(digits(r, 16), true),
+		} {
+			e := nasType.NewMobileIdentity5GS(0)
+			e.SetLen(uint16(len(w)))
+			e.SetMobileIdentity5GSContents(w)
+			s1, s2, e1 := e.GetMobileIdentity()
+			s3, _, _ := e.Get5GSTMSI()
+			acc ^= hs(s1) ^ hs(s2) ^ hs(fmt.Sprint(e1)) ^ hs(e.GetSUCI()) ^ hs(e.GetPlmnID()) ^ hs(e.Get5GGUTI()) ^ hs(e.GetAmfSetID()) ^ hs(e.GetAmfPointer()) ^ hs(e.Get5GTMSI()) ^ hs(e.GetIMEI()) ^ hs(e.GetIMEISV()) ^ hs(s3)
+		}
+		return acc
 	case "lists":
 		sn := nasConvert.SnssaiToNas(models.Snssai{Sst: int32(r.Byte()), Sd: hex.EncodeToString(r.Bytes(3))})
 		tl, _ := c13RandTais(r, r.Range(1, 16), 1+r.Intn(2))
@@ -251,10 +269,26 @@ func c19Run(sh *c19Shared, it c19Item) (res uint64) {
 func c19BuildShared(sp *refcodec.Spec, seed uint64) *c19Shared {
 	sh := &c19Shared{sp: sp, gmm: dispatchable(sp)}
 	r := prng.New(seed)
+	for i := range sh.keys {
+		copy(sh.keys[i][:], r.Bytes(16))
+	}
 	want := []string{"RegistrationRequest", "RegistrationAccept", "PDUSessionEstablishmentAccept", "ULNASTransport", "ConfigurationUpdateCommand", "SecurityModeCommand", "PDUSessionModificationCommand", "ServiceRequest"}
 	for len(sh.msgs) < 64 {
 		def := sp.Msg(want[len(sh.msgs)%len(want)])
-		b := refcodec.RandomPlan(def, r, 1+r.Intn(5), 3).Bytes()
+		pl := refcodec.RandomPlan(def, r, 1+r.Intn(5), 3)
+		if def.Name == "RegistrationRequest" {
+			// a well-formed mobile identity: SUCI (IMSI format) and GUTI alternate
+			w := refconv.SuciWire(digits(r, 3), digits(r, 2), digits(r, 2), 0, 1, digits(r, 10), nil)
+			if len(sh.msgs)%16 >= 8 {
+				w = refconv.GutiWire(digits(r, 3), digits(r, 3), r.Uint32()&0xffffff, r.Uint32())
+			}
+			for i := range pl.Mand {
+				if def.Slots[pl.Mand[i].Slot].Name == "MobileIdentity5GS" {
+					pl.Mand[i].Decl, pl.Mand[i].Val = len(w), w
+				}
+			}
+		}
+		b := pl.Bytes()
 		m := nas.NewMessage()
 		if err := m.PlainNasDecode(&b); err == nil {
 			sh.msgs = append(sh.msgs, m)
@@ -403,7 +437,6 @@ func c19Item1(c *core.Ctx, k *core.Case) {
 	}
 }
 
-var raceFrame = regexp.MustCompile(`^\s+(github\.com/free5gc/nas[^\s(]*)\(`)
 
 // c19Post parses the race detector's logs written by the shards.
 func c19Post(pi *core.PostInfo) (vios []*core.Violation, inconcl []string) {
@@ -428,9 +461,12 @@ func c19Post(pi *core.PostInfo) (vios []*core.Violation, inconcl []string) {
 				}
 				fr := "?"
 				for _, ln := range strings.Split(part, "\n") {
-					if m := raceFrame.FindStringSubmatch(ln); m != nil {
-						fr = strings.TrimPrefix(m[1], "github.com/free5gc/nas")
-						fr = strings.TrimPrefix(fr, "/")
+					t := strings.TrimSpace(ln)
+					if strings.HasPrefix(t, "github.com/free5gc/nas") {
+						if i := strings.LastIndex(t, "("); i > 0 {
+							t = t[:i]
+						}
+						fr = strings.TrimPrefix(strings.TrimPrefix(t, "github.com/free5gc/nas"), "/")
 						break
 					}
 				}
